@@ -22,6 +22,7 @@ KIND_TEXT = {
     "KStatus": "returned Status (complete ids, complete-sink ids, warnings as multisets) differs from what the pipelines handed over",
     "KErr": "Send's error nil/non-nil differs from get_error (completes < threshold or complete sinks < sink threshold)",
     "KErrCtx": "the returned error does / does not wrap the context's error",
+    "KInvented": "more Status entries (completes + warnings) than registered pipelines, or, with a context never cancelled, not exactly one per pipeline",
     "KNoGraph": "Send for a type without graph must fail, return an empty Status and invoke nothing",
     "KProto": "a protocol event (hand-off, exit, wg.Wait, close, collector exit) that is not an enabled step of the model",
     "KLeak": "every node had returned, yet an invocation of doProcess never exited or the status channel was never closed (goroutine left behind)",
@@ -29,7 +30,7 @@ KIND_TEXT = {
 }
 RELEVANT = {
     "C01": {"KCall", "KChain", "KSkipped", "KCalls", "KEvent0", "KRegistry"},
-    "C02": {"KRecv", "KAbortLive", "KStatus", "KErr", "KErrCtx", "KNoGraph"},
+    "C02": {"KRecv", "KAbortLive", "KStatus", "KErr", "KErrCtx", "KNoGraph", "KInvented"},
     "C03": {"KProto", "KLeak", "KHang"},
 }
 
@@ -110,6 +111,15 @@ def run(ctx, prop=None):
     rc, out = V.run(args, env=env, timeout=3000)
     ctx.log(out.strip()[-500:])
     if rc != 0:
+        cur = os.path.join(cdir, "current_case.json")
+        if os.path.exists(cur):
+            # a panic in a goroutine of the library (negative WaitGroup counter, send on closed channel, ...) took the driver down
+            c = json.load(open(cur))
+            first = next((l for l in out.splitlines() if l.startswith("panic:") or l.startswith("fatal error:")), "driver died")
+            rp = V.write_replay(ctx, "dispatch-panic", {"kind": "correspondence", "engine": "dispatchh", "signature": "panic", "what": first,
+                                                       "case": _input_of(c), "output": out[-3000:], "repro": "bin/check replay <this file>"})
+            ctx.violations.append({"match": "dispatch:panic", "replay": rp, "what": "%s: the process died while Send ran case %s (gen %s): %s" % (prop, c.get("id"), c.get("gen"), first)})
+            return
         rp = V.write_replay(ctx, "harness-run", {"kind": "correspondence", "output": out[-4000:]})
         ctx.violations.append({"match": "harness-crash", "replay": rp, "what": "dispatchh crashed", "no_input": True})
         return
@@ -130,7 +140,8 @@ def run(ctx, prop=None):
     others = {}
     for cid, step, evk, kind in mism:
         cid, step, evk = int(cid), int(step), int(evk)
-        if kind in rel:
+        # a hand-off the model does not allow is also a status entry from nowhere (C02)
+        if kind in rel or (prop == "C02" and kind == "KProto" and evk in (5, 12)):
             by_case.setdefault(cid, []).append((step, evk, kind))
         else:
             others[kind] = others.get(kind, 0) + 1
@@ -196,7 +207,10 @@ def replay(ctx, rec, path):
     corpus = os.path.join(cdir, "one.jsonl")
     open(corpus, "w").write(json.dumps(rec["case"]) + "\n")
     rc, out = V.run([binp, "-out", cdir, "-modes", "", "-corpus", corpus, "-corpus-repeat", "20"])
-    print(out.strip())
+    print(out.strip()[-3000:])
+    if rc != 0:
+        print("the driver died while running the case (panic inside the library)")
+        return 1
     summ = json.load(open(os.path.join(cdir, "cases_summary.json")))
     cases = _load_cases(cdir)
     mism, failures = V.eval_shards(ctx, summ["files"])
